@@ -273,16 +273,35 @@ class Sim:
             if isinstance(e, (KeyboardInterrupt, SystemExit, MemoryError)):
                 raise
             res, exc = None, e
+            # the exception crosses the process boundary as well.  CPython:
+            # if it cannot be pickled the worker sends the pickling error
+            # instead; if it cannot be *un*pickled the executor's reader
+            # thread fails and the whole pool is declared broken.
+            try:
+                blob = pickle.dumps(e, protocol=4)
+            except BaseException as pe:  # noqa: BLE001
+                exc, blob = pe, None
+            if blob is not None:
+                try:
+                    exc = pickle.loads(blob)
+                except BaseException:  # noqa: BLE001
+                    self.log['events'] += 1
+                    self.log['exception_unpicklable'] = True
+                    self._break(injected=False)
+                    return
         self.completed.append(idx)
         self.log['completion_order'].append(idx)
         self.log['events'] += 1
         self.log['makespan'] = self.now
         fut._finish(result=res, exception=exc)
 
-    def _break(self):
-        """A worker died: every unfinished future gets BrokenProcessPool."""
+    def _break(self, injected=True):
+        """A worker died (injected fault), or the executor's reader thread
+        failed on something the code under test sent: every unfinished
+        future gets BrokenProcessPool."""
         self.broken = True
-        self.log['crash_fired'] = True
+        if injected:
+            self.log['crash_fired'] = True
         self.heap = [e for e in self.heap if e[2] not in ('done',
                                                           'worker_ready')]
         heapq.heapify(self.heap)
